@@ -105,7 +105,30 @@ def search():
                     name = {"loky": "LokyBackend", "threading": "ThreadingBackend"}[expl["backend"]]
                     if type(p._backend).__name__ != name:
                         return dict(violation=True, cases=cases, what="explicit backend %s gave %s" % (expl["backend"], type(p._backend).__name__), witness=[ctx, repr(expl)])
-    return dict(violation=False, cases=cases)
+    known = {}
+    from joblib import Parallel as _P, parallel_config as _pc
+    import joblib.parallel as _jp
+    # K19 (recorded finding): a prefer='processes' hint that only comes from a context makes an explicit require='sharedmem' raise
+    try:
+        with _pc(prefer="processes"):
+            _P(require="sharedmem")
+        known["K19"] = False
+    except ValueError as e:
+        known["K19"] = "with parallel_config(prefer='processes'): Parallel(require='sharedmem') raises ValueError(%s)" % (str(e)[:60],)
+    # K20 (recorded finding): blocks that are not exited in LIFO order (a block suspended inside a generator) leave settings behind
+    def _gen():
+        with _pc(n_jobs=3):
+            yield 1
+    had = hasattr(_jp._backend, "config")
+    with _pc(backend="threading"):
+        g = _gen()
+        next(g)
+    g.close()
+    leaked = hasattr(_jp._backend, "config") and type(_P()._backend).__name__ == "ThreadingBackend"
+    known["K20"] = "after closing a generator suspended inside an inner block, the outer block's backend is active outside any block" if leaked else False
+    if hasattr(_jp._backend, "config") and not had:
+        delattr(_jp._backend, "config")
+    return dict(violation=False, cases=cases, known=known)
 
 
 if __name__ == "__main__":
